@@ -189,6 +189,22 @@ pub fn check(m: &Model, praw: &str, o: &EntOpts, items: &[Result<EntryView, Stri
     if !errs.is_empty() {
         return Err(("unexpected-error".into(), format!("errors yielded: {:?}", errs)));
     }
+    // a custom filter given together with dirs()/files(): the documentation does not say whether
+    // it replaces the kind filter or is applied on top of it; both readings are accepted
+    if want != got && o.filter.is_some() && (o.files || o.dirs) {
+        let mut o2 = o.clone();
+        o2.filter = None;
+        if let Some(exp2) = expected(m, &root, &o2) {
+            let f = o.filter.as_ref().unwrap();
+            let mut want2: BTreeMap<String, i64> = BTreeMap::new();
+            for e in exp2.items.iter().filter(|e| keep(f, e)) {
+                *want2.entry(key(e)).or_insert(0) += 1;
+            }
+            if want2 == got {
+                want = want2;
+            }
+        }
+    }
     // multiset equality
     if want != got {
         let mut extra = vec![];
